@@ -93,7 +93,11 @@ func NewWorld(p *Plan) *World {
 		}
 	}
 	for i := 0; i < nk; i++ {
-		w.Keys = append(w.Keys, NewKey(fmt.Sprintf("logkey%d", i), worldKey(p.Seed, "log", i)))
+		name := fmt.Sprintf("logkey%d", i)
+		if p.Cfg.Extra["samename"] != 0 {
+			name = "logkey" // different keys under one key name (a sharded log whose signing key was rotated): the key ID still tells them apart
+		}
+		w.Keys = append(w.Keys, NewKey(name, worldKey(p.Seed, "log", i)))
 	}
 	if p.Cfg.Extra["collide"] != 0 && nk >= 2 {
 		// two different keys whose 32-bit note key IDs are equal (the ID is a lookup hint, not an identity): a legal configuration
